@@ -619,6 +619,15 @@ class Ctx:
             ax.append(z3.ForAll([a, b] + ps, z3.Implies(b <= a, app == 0), patterns=[app]))
             ax.append(z3.ForAll([a, b] + ps, z3.Implies(b > a, app == s.f(a, b - 1, *ps) + s.body(b - 1, *ps)),
                                 patterns=[app]))
+        if getattr(self, 'sum_split', False):
+            # S(a,c) = S(a,b) + S(b,c) for a <= b <= c: follows from the two unfolding axioms by induction on c
+            # (lemma sum_split in contracts/kernels.py proves base and step); instantiated only for existing terms
+            for s in self.sums.values():
+                a, b, c_ = z3.Ints('a? b? c?')
+                ps = [z3.Const('ps?%d' % i, srt) for i, srt in enumerate(s.sorts)]
+                ax.append(z3.ForAll([a, b, c_] + ps, z3.Implies(z3.And(a <= b, b <= c_),
+                                                                s.f(a, c_, *ps) == s.f(a, b, *ps) + s.f(b, c_, *ps)),
+                                    patterns=[z3.MultiPattern(s.f(a, b, *ps), s.f(a, c_, *ps))]))
         return ax + list(self.sum_eqs)
 
     # ---------------------------------------------------------------- transcendental
@@ -638,6 +647,19 @@ class Ctx:
 
     def sqrt(self, x):
         return math.sqrt(x) if not is_sym(x) and self.mode == 'conc' else self._uf1('u_sqrt')(to_real(x))
+
+    def pow(self, a, b):
+        """a**b for a non-integer exponent: uninterpreted in proofs"""
+        if self.mode == 'conc' and not (is_sym(a) or is_sym(b)):
+            return a ** b
+        return self.func('u_pow', REAL, REAL, REAL)(to_real(a), to_real(b))
+
+    def expn(self, n, x):
+        """exponential integral E_n(x): uninterpreted in proofs, scipy when replaying"""
+        if self.mode == 'conc' and not is_sym(x):
+            from scipy.special import expn
+            return float(expn(n, x))
+        return self.func('u_expn', INT, REAL, REAL)(to_int(n), to_real(x))
 
     def probit(self, x):
         if not is_sym(x) and self.mode == 'conc':
